@@ -66,7 +66,13 @@ class SplineTransmissivity:
         )
 
     def conductivity(self, water_level_mm):
-        assert water_level_mm >= self.zeta_knots_mm.min()
+        zeta_min_mm = self.zeta_knots_mm.min()
+        # quad can evaluate its integrand a rounding error below the
+        # lower limit of integration
+        assert water_level_mm >= zeta_min_mm - 1e-9 * max(
+            1.0, abs(zeta_min_mm)
+        )
+        water_level_mm = max(water_level_mm, zeta_min_mm)
         if water_level_mm >= self.zeta_knots_mm.max():
             raise NotImplementedError('Extrapolation above highest knot')
         return np.exp(self._spline(water_level_mm))
